@@ -19,6 +19,12 @@ T = {
  "C10": ("round-trip monitors with conditioning-aware tolerances; reference = elementary matrices, Rodrigues, exponential map",
          "Runtime monitoring: rpy triples (incl. within 1e-6 of gimbal lock), axis-angle rotations (angles 0, 1e-9..pi-1e-6), exponents in [-3,3] and Euler sequences of length 1-3 (radians, degrees, angles down to 1e-9) are pushed through every public conversion of the real code and compared with independent models.",
          "NumPy; arccos-based formulas (DCM.to_axisangle, Quaternion.logarithm) are granted their documented first-order accuracy; exp() of real quaternions is a test-pinned known finding", "5/C10"),
+ "C11": ("invariant monitors on constructed objects + rejection monitor (exception type must be ValueError/TypeError)",
+         "Runtime monitoring: vectors with norms 1e-100..1e100, every DCM keyword route, sums/differences, random attitudes, rotate_by and averages (spread, clustered, weighted, spans) are constructed with the real classes and checked for real dtype, unit norm / proper rotation and direction; invalid inputs (zero, NaN, inf, wrong shapes; matrices >= 1e-4 from SO(3) by SVD distance) must be refused, matrices <= 1e-12 from SO(3) accepted.",
+         "NumPy; SVD polar distance to SO(3); the band 1e-12..1e-4 is not judged; strings/booleans are recorded only (not listed by the property)", "5/C11"),
+ "C12": ("reference model (great-arc geometry on S^3) + history checkers over all interior NaN runs and all sign-flip patterns",
+         "Runtime monitoring: both slerp copies are run on endpoint pairs stratified around every branch (shortest-path flip, LERP threshold 0.9995 swept and bracketed, orthogonal, identical) and compared with the harness' great-arc interpolation (unit, end points, plane, constant speed, monotone, sign invariance); slerp_nan is run on trajectories with every interior NaN run for N<=10 and sampled multi-run patterns, remove_jumps/q_correct on every sign pattern for N<=8 and sampled ones to N=60.",
+         "NumPy; reference slerp in the check module; LERP branch allowed Omega^3/20", "5/C12"),
 }
 
 def main():
